@@ -143,6 +143,12 @@ def zz_bytes(eng, st, fr, args, ins):
     return eng.new_slice(st, "uint8", bs)
 
 
+@intr(ZZ + "WhenBlocked")
+def zz_whenblocked(eng, st, fr, args, ins):
+    st.world["when_blocked"] = tuple(st.world.get("when_blocked", ())) + (args[0],)
+    return None
+
+
 @intr(ZZ + "SameCommitment")
 def zz_samecommitment(eng, st, fr, args, ins):
     a, b = args
